@@ -186,6 +186,32 @@ func init() {
 		return true
 	})
 
+	fparts := func(f FloatV) (expOnes, mantZero, neg *Term) {
+		if f.w == 32 {
+			return tEq(bvExtract(30, 23, f.bits), bvConst(0xff, 8)), tEq(bvExtract(22, 0, f.bits), bvConst(0, 23)), tEq(bvExtract(31, 31, f.bits), bvConst(1, 1))
+		}
+		return tEq(bvExtract(62, 52, f.bits), bvConst(0x7ff, 11)), tEq(bvExtract(51, 0, f.bits), bvConst(0, 52)), tEq(bvExtract(63, 63, f.bits), bvConst(1, 1))
+	}
+	reg("math.IsNaN", func(ex *Exec, st *State, fv FuncV, args []Value, res ssa.Value, at ssa.Instruction) bool {
+		e, m, _ := fparts(args[0].(FloatV))
+		setRes(st, res, tAnd(e, tNot(m)))
+		return true
+	})
+	reg("math.IsInf", func(ex *Exec, st *State, fv FuncV, args []Value, res ssa.Value, at ssa.Instruction) bool {
+		e, m, neg := fparts(args[0].(FloatV))
+		sign := args[1].(*Term)
+		if !sign.isConst {
+			fail("math.IsInf with a symbolic sign")
+		}
+		r := tAnd(e, m)
+		if sext(sign.v, sign.w) > 0 {
+			r = tAnd(r, tNot(neg))
+		} else if sext(sign.v, sign.w) < 0 {
+			r = tAnd(r, neg)
+		}
+		setRes(st, res, r)
+		return true
+	})
 	reg("math.Float32bits", func(ex *Exec, st *State, fv FuncV, args []Value, res ssa.Value, at ssa.Instruction) bool {
 		f := args[0].(FloatV)
 		if f.w != 32 {
